@@ -292,6 +292,24 @@ def _run_case(case: dict) -> dict:
                     any(sp.value is fi for fi in f.inputs) and sp.value.shape is None
                     for f in model.functions.values() for x in f.all_nodes() for dc in x.device_configurations for sp in dc.sharding_specs
                 )  # fmt: skip
+                if not risky:
+                    # ... and neither does a parameter of KNOWN rank when a call site passes an argument of another (or of
+                    # unknown) rank: the model is ill-typed by itself, and inlining substitutes the argument for the parameter
+                    # (false alarm of the thorough soak, seed 1404: 'sharded axis 1 of value ... is out of range (rank=1)')
+                    tops_ = [model.graph] + [f_.graph for f_ in model.functions.values()]
+                    calls_ = [x for t_ in tops_ for x in t_.all_nodes()]
+                    for f in model.functions.values():
+                        sharded_params = {i_ for i_, fi in enumerate(f.inputs) for x in f.all_nodes() for dc in x.device_configurations for sp in dc.sharding_specs if sp.value is fi}
+                        if not sharded_params:
+                            continue
+                        for cnode in calls_:
+                            if (cnode.domain, cnode.op_type, cnode.overload) != (f.domain, f.name, f.overload):
+                                continue
+                            for i_ in sharded_params:
+                                arg = cnode.inputs[i_] if i_ < len(cnode.inputs) else None
+                                want = f.inputs[i_].shape
+                                if arg is None or arg.shape is None or want is None or len(arg.shape) != len(want):
+                                    risky = True
                 if risky:
                     inc("inline_skipped_sharded_parameter_of_unknown_rank")
                     continue
